@@ -202,6 +202,8 @@ impl Sys {
         let mut accts: Vec<String> = accts.iter().map(|s| s.to_string()).collect();
         if selfacct {
             accts.push("t".to_string());
+            // "m": the list manager is an account like any other (it can be listed, hold and receive tokens)
+            accts.push("m".to_string());
         }
         Sys { e, names, accts, c, fl, flname: flname.to_string(), scale, cap, thin, selfacct, min_temp }
     }
@@ -519,7 +521,8 @@ fn main() {
                         "list" | "unlist" => {
                             let operator = if good { "m" } else { *pick(&mut r, &["a", "b", "m"]) };
                             if r.gen_bool(0.9) { auth.push(operator.into()); }
-                            json!({"op": kind, "from": operator, "to": to, "sp": "none", "amt": 0, "until": 0, "auth": auth, "k": k})
+                            let whom = if r.gen_ratio(1, 8) { "m" } else { to };
+                            json!({"op": kind, "from": operator, "to": whom, "sp": "none", "amt": 0, "until": 0, "auth": auth, "k": k})
                         }
                         _ => json!({"op": "advance", "from": "none", "to": "none", "sp": "none", "amt": 0, "until": 0, "auth": [], "k": k.max(1)}),
                     };
